@@ -140,3 +140,58 @@ def layout_variants_agree(REC, prop, fname, f, X, args=(), kwargs=None, make_kwa
             continue
         REC.check(prop, fname, 'layout_independent', _same_struct(ref, got, rtol),
                   {'X': X, 'layout': lname, 'c_contiguous_result': ref, 'result': got, 'args': list(args)}, ('layout:' + lname,))
+
+
+def pad_with_isolated(A, N, seed):
+    """Embed A at random positions among N nodes; all other nodes are isolated.  Returns (padded, positions)."""
+    rs = np.random.RandomState(seed)
+    n = len(A)
+    idx = np.sort(rs.choice(N, size=n, replace=False))
+    P = np.zeros((N, N), dtype=A.dtype)
+    P[np.ix_(idx, idx)] = A
+    return P, idx
+
+
+def padding_invariant(REC, prop, fname, f, A, N, seed, kinds, fill, args=(), rtol=1e-9):
+    """Size-threshold probe with the small case as the oracle: adding isolated nodes creates no path, triangle or
+    core, so on the embedded nodes the result must be the small result, and `fill` elsewhere.
+    kinds: tuple of 'node' | 'pair' | 'scalar' | 'skip' per output; fill: value expected for the added nodes / pairs
+    ('pair': off-diagonal cells that involve an added node)."""
+    try:
+        base = f(A.copy(), *args)
+    except CaseTimeout:
+        raise
+    except Exception:  # noqa
+        return
+    P, idx = pad_with_isolated(A, N, seed)
+    try:
+        got = f(P, *args)
+    except CaseTimeout:
+        raise
+    except Exception as e:  # noqa
+        REC.check(prop, fname, 'padding_invariant', False, {'A': A, 'N': N, 'exception': repr(e)[:200]}, ('padded_to_%d' % N,))
+        return
+    if len(kinds) == 1:
+        base, got = (base,), (got,)
+    ok = True
+    for k, b, g in zip(kinds, base, got):
+        b = np.asarray(b, dtype=float)
+        g = np.asarray(g, dtype=float)
+        if k == 'skip':
+            continue
+        if k == 'scalar':
+            ok = ok and close(b, g, rtol=rtol, atol=1e-12)
+        elif k == 'node':
+            rest = np.ones(N, dtype=bool)
+            rest[idx] = False
+            ok = ok and g.shape == (N,) and close(g[idx], b, rtol=rtol, atol=1e-12) and bool(np.all(g[rest] == fill if np.isfinite(fill) else np.isinf(g[rest])))
+        elif k == 'pair':
+            if g.shape != (N, N):
+                ok = False
+                continue
+            ok = ok and close(g[np.ix_(idx, idx)], b, rtol=rtol, atol=1e-12)
+            m = np.ones((N, N), dtype=bool)
+            m[np.ix_(idx, idx)] = False
+            m &= ~np.eye(N, dtype=bool)
+            ok = ok and bool(np.all(g[m] == fill) if np.isfinite(fill) else np.all(np.isinf(g[m])))
+    REC.check(prop, fname, 'padding_invariant', bool(ok), {'A': A, 'N': N, 'positions': idx, 'args': list(args)}, ('padded_to_%d' % N,))
